@@ -223,7 +223,9 @@ class CellCycleController:
         released = lock.release(owner=ctx.operation_id)
 
         if released:
-            del ctx.acquired_resources[resource_id]
+            if lock.owner != ctx.operation_id:
+                # Forget the resource only once the last (re-entrant) hold is gone
+                del ctx.acquired_resources[resource_id]
             self.dependency_graph.remove_all_for_agent(ctx.operation_id)
 
         return released
